@@ -23,6 +23,7 @@ def setup(ctx, meth):
     ex.stub(r'source_loc$', lambda ex, st, c, A: Opaque('Option<&Loc>', 'loc'), 'Expr::source_loc')
     outs = ex.run(f, [Ref(0, ('local', 'PR'))], heap={'PR': pr})
     ctx.absorb(ex)
+    ctx.panic_summary(f.name.split('::')[-1] + '@' + (f.file or '').split('/')[-1], outs, ex)
     ids = {}
     D = iteralg.Denoter(ex, lambda v: by_id.get(getattr(v, 'id', None)), bucket_elem(ids))
     return f, ex, pr, maps, empty, outs, D, ids
@@ -262,12 +263,15 @@ def residual_policy_set(ctx):
     ctx.decide('PartialResponse::all_residual_policies/witness', [z3.BoolVal(any(o.kind == 'ret' for o in outs))], expect='sat', ex=ex)
 
 
+def families(ctx):
+    return [('decision', lambda: decision(ctx)), ('may_be_determining', lambda: determining(ctx, 'may_be_determining')),
+            ('must_be_determining', lambda: determining(ctx, 'must_be_determining')), ('definitely', lambda: definitely(ctx)),
+            ('residual_policy_set', lambda: residual_policy_set(ctx))]
+
+
 def run(ctx):
-    ctx.guarded('decision', lambda: decision(ctx))
-    ctx.guarded('may_be_determining', lambda: determining(ctx, 'may_be_determining'))
-    ctx.guarded('must_be_determining', lambda: determining(ctx, 'must_be_determining'))
-    ctx.guarded('definitely', lambda: definitely(ctx))
-    ctx.guarded('residual_policy_set', lambda: residual_policy_set(ctx))
+    for name, fn in families(ctx):
+        ctx.guarded(name, fn)
     ctx.bounds += ['all 2^6 bucket-emptiness states; completions quantified at bucket granularity (some residual permit / forbid becomes satisfied or none does)',
                    'replay: one policy per non-empty bucket, every binding of each unknown in {true, false, non-boolean}, reauthorize vs. authorization from scratch']
     ctx.assumptions += ['HashMap::is_empty / iter and iterator adaptors as logged terms; closure bodies executed from the MIR on one abstract member per bucket',
